@@ -219,8 +219,8 @@ def auto_discharge(prog, site):
             unsigned = re.search(r"<impl u(8|16|32|64|128|size)>", c)
             if v is not None and v != 0 and (unsigned or v != -1):
                 return ("D5", "constant non-zero divisor %d" % v)
-    if k == "call:panic":
-        pass
+    if t.get("exp") and re.search(r"\btracing(_core)?::", site.descr):
+        return ("D7", "inside the expansion of a tracing macro (feature `tracing`; third-party generated code, trusted)")
     return None
 
 
